@@ -82,6 +82,12 @@ func showAssocColl(c assocLike[int, int]) string {
 	return out
 }
 
+// showSeq prints a collection through its array view and through an iterator: a write through a returned
+// array or sequence may reach either of them
+func showSeq[V any](c col.Sequential[V]) string {
+	return fmt.Sprint(c.AsArray(), " iteration ", walk(c.GetIterator()), " size ", c.GetSize())
+}
+
 func showMap(m map[int]int) string {
 	ps := []string{}
 	for k, v := range m {
@@ -133,7 +139,12 @@ func mutateIntColl(c intSeq, pos int) bool {
 		if x.GetSize() == 0 {
 			x.AppendValue(-1)
 		} else {
+			// in place first, then growing (an append may land in spare capacity that somebody else still
+			// looks at), then shrinking and reordering
 			x.SetValue(pos%x.GetSize()+1, -1)
+			x.AppendValue(-7)
+			x.AppendValues(col.List[int](lib.Notation()).MakeFromArray([]int{-8, -9}))
+			x.InsertValue(0, -6)
 			x.RemoveValue(-1)
 			x.SortValuesWithRanker(func(a, b int) age.Rank { return rankOfInts(b, a) })
 		}
@@ -198,12 +209,12 @@ func init() {
 			aliasEntry{kind + ".MakeFromArray/mutate-argument", func(size, pos int) (string, string, bool) {
 				arg := intsN(size)
 				c := buildInt(kind, arg)
-				before := fmt.Sprint(c.AsArray())
+				before := showSeq(c)
 				if size == 0 {
 					return before, before, false
 				}
 				arg[pos%size] = -1
-				return before, fmt.Sprint(c.AsArray()), true
+				return before, showSeq(c), true
 			}},
 			aliasEntry{kind + ".MakeFromArray/mutate-collection", func(size, pos int) (string, string, bool) {
 				arg := intsN(size)
@@ -215,26 +226,26 @@ func init() {
 			aliasEntry{kind + ".MakeFromSequence/mutate-argument", func(size, pos int) (string, string, bool) {
 				arg := col.List[int](n).MakeFromArray(intsN(size))
 				c := buildIntFromSeq(kind, arg)
-				before := fmt.Sprint(c.AsArray())
+				before := showSeq(c)
 				w := mutateIntColl(arg, pos)
-				return before, fmt.Sprint(c.AsArray()), w
+				return before, showSeq(c), w
 			}},
 			aliasEntry{kind + ".MakeFromSequence/mutate-collection", func(size, pos int) (string, string, bool) {
 				arg := col.Array[int](n).MakeFromArray(intsN(size))
 				c := buildIntFromSeq(kind, arg)
-				before := fmt.Sprint(arg.AsArray())
+				before := showSeq(arg)
 				w := mutateIntColl(c, pos)
-				return before, fmt.Sprint(arg.AsArray()), w
+				return before, showSeq(arg), w
 			}},
 			aliasEntry{kind + ".AsArray/mutate-result", func(size, pos int) (string, string, bool) {
 				c := buildInt(kind, intsN(size))
 				res := c.AsArray()
-				before := fmt.Sprint(c.AsArray())
+				before := showSeq(c)
 				if len(res) == 0 {
 					return before, before, false
 				}
 				res[pos%len(res)] = -1
-				return before, fmt.Sprint(c.AsArray()), true
+				return before, showSeq(c), true
 			}},
 			aliasEntry{kind + ".AsArray/mutate-collection", func(size, pos int) (string, string, bool) {
 				c := buildInt(kind, intsN(size))
@@ -252,42 +263,85 @@ func init() {
 				aliasEntry{kind + ".MakeFromSequence(" + from + ")/mutate-argument", func(size, pos int) (string, string, bool) {
 					arg := buildInt(from, intsN(size))
 					c := buildIntFromSeq(kind, arg)
-					before := fmt.Sprint(c.AsArray())
+					before := showSeq(c)
 					w := mutateIntColl(arg, pos)
-					return before, fmt.Sprint(c.AsArray()), w
+					return before, showSeq(c), w
 				}},
 				aliasEntry{kind + ".MakeFromSequence(" + from + ")/mutate-collection", func(size, pos int) (string, string, bool) {
 					arg := buildInt(from, intsN(size))
 					c := buildIntFromSeq(kind, arg)
-					before := fmt.Sprint(arg.AsArray())
+					before := showSeq(arg)
 					w := mutateIntColl(c, pos)
-					return before, fmt.Sprint(arg.AsArray()), w
+					return before, showSeq(arg), w
 				}},
 			)
 		}
 	}
+	// a range of a collection of size+2 values: everything, a head, a tail or a middle part
+	rangeOf := func(where string, size int) (int, int) {
+		switch where {
+		case "head":
+			return 1, size
+		case "tail":
+			return 3, size + 2
+		case "middle":
+			return 2, size + 1
+		}
+		return 1, -1
+	}
 	for _, kind := range []string{"Array", "List", "Set"} {
-		kind := kind
+		for _, where := range []string{"all", "head", "tail", "middle"} {
+			kind, where := kind, where
+			aliasEntries = append(aliasEntries,
+				aliasEntry{kind + ".GetValues(" + where + ")/mutate-result", func(size, pos int) (string, string, bool) {
+					c := buildInt(kind, intsN(size+2))
+					before := showSeq(c)
+					if size == 0 {
+						return before, before, false
+					}
+					first, last := rangeOf(where, size)
+					res := c.(col.Accessible[int]).GetValues(first, last)
+					w := mutateSeqResult[int](res, pos, -1)
+					return before, showSeq(c), w
+				}},
+				aliasEntry{kind + ".GetValues(" + where + ")/mutate-collection", func(size, pos int) (string, string, bool) {
+					c := buildInt(kind, intsN(size+2))
+					if size == 0 {
+						return "", "", false
+					}
+					first, last := rangeOf(where, size)
+					res := c.(col.Accessible[int]).GetValues(first, last)
+					before := showSeq(res)
+					w := mutateIntColl(c, pos)
+					return before, showSeq(res), w
+				}},
+			)
+		}
+	}
+	for _, where := range []string{"head", "tail", "middle"} {
+		where := where
 		aliasEntries = append(aliasEntries,
-			aliasEntry{kind + ".GetValues/mutate-result", func(size, pos int) (string, string, bool) {
-				c := buildInt(kind, intsN(size))
-				before := fmt.Sprint(c.AsArray())
-				if size == 0 {
-					return before, before, false
-				}
-				res := c.(col.Accessible[int]).GetValues(1, -1)
-				w := mutateSeqResult[int](res, pos, -1)
-				return before, fmt.Sprint(c.AsArray()), w
-			}},
-			aliasEntry{kind + ".GetValues/mutate-collection", func(size, pos int) (string, string, bool) {
-				c := buildInt(kind, intsN(size))
+			aliasEntry{"List.RemoveValues(" + where + ")/mutate-result", func(size, pos int) (string, string, bool) {
+				l := col.List[int](n).MakeFromArray(intsN(size + 2))
 				if size == 0 {
 					return "", "", false
 				}
-				res := c.(col.Accessible[int]).GetValues(1, -1)
-				before := fmt.Sprint(res.AsArray())
-				w := mutateIntColl(c, pos)
-				return before, fmt.Sprint(res.AsArray()), w
+				first, last := rangeOf(where, size)
+				res := l.RemoveValues(first, last) // leaves two values
+				before := showSeq(l)
+				w := mutateSeqResult[int](res, pos, -1)
+				return before, showSeq(l), w
+			}},
+			aliasEntry{"List.RemoveValues(" + where + ")/mutate-collection", func(size, pos int) (string, string, bool) {
+				l := col.List[int](n).MakeFromArray(intsN(size + 2))
+				if size == 0 {
+					return "", "", false
+				}
+				first, last := rangeOf(where, size)
+				res := l.RemoveValues(first, last)
+				before := showSeq(res)
+				w := mutateIntColl(l, pos)
+				return before, showSeq(res), w
 			}},
 		)
 	}
@@ -298,9 +352,9 @@ func init() {
 				return "", "", false
 			}
 			res := l.RemoveValues(1, size) // leaves one value
-			before := fmt.Sprint(l.AsArray())
+			before := showSeq(l)
 			w := mutateSeqResult[int](res, pos, -1)
-			return before, fmt.Sprint(l.AsArray()), w
+			return before, showSeq(l), w
 		}},
 		aliasEntry{"List.RemoveValues/mutate-collection", func(size, pos int) (string, string, bool) {
 			l := col.List[int](n).MakeFromArray(intsN(size + 1))
@@ -308,42 +362,42 @@ func init() {
 				return "", "", false
 			}
 			res := l.RemoveValues(1, size)
-			before := fmt.Sprint(res.AsArray())
+			before := showSeq(res)
 			w := mutateIntColl(l, pos)
-			return before, fmt.Sprint(res.AsArray()), w
+			return before, showSeq(res), w
 		}},
 		aliasEntry{"List.Concatenate/mutate-operand", func(size, pos int) (string, string, bool) {
 			L := col.List[int](n)
 			a, b := L.MakeFromArray(intsN(size)), L.MakeFromArray(intsN(size))
 			r := L.Concatenate(a, b)
-			before := fmt.Sprint(r.AsArray())
+			before := showSeq(r)
 			w := mutateIntColl(a, pos)
 			w = mutateIntColl(b, pos) || w
-			return before, fmt.Sprint(r.AsArray()), w
+			return before, showSeq(r), w
 		}},
 		aliasEntry{"List.Concatenate(x, empty)/mutate-result", func(size, pos int) (string, string, bool) {
 			L := col.List[int](n)
 			a, b := L.MakeFromArray(intsN(size)), L.Make()
 			r := L.Concatenate(a, b)
-			before := fmt.Sprint(a.AsArray(), b.AsArray())
+			before := fmt.Sprint(showSeq(a), showSeq(b))
 			w := mutateIntColl(r, pos)
-			return before, fmt.Sprint(a.AsArray(), b.AsArray()), w
+			return before, fmt.Sprint(showSeq(a), showSeq(b)), w
 		}},
 		aliasEntry{"List.Concatenate(empty, x)/mutate-operand", func(size, pos int) (string, string, bool) {
 			L := col.List[int](n)
 			a, b := L.Make(), L.MakeFromArray(intsN(size))
 			r := L.Concatenate(a, b)
-			before := fmt.Sprint(r.AsArray())
+			before := showSeq(r)
 			w := mutateIntColl(b, pos)
-			return before, fmt.Sprint(r.AsArray()), w
+			return before, showSeq(r), w
 		}},
 		aliasEntry{"List.Concatenate/mutate-result", func(size, pos int) (string, string, bool) {
 			L := col.List[int](n)
 			a, b := L.MakeFromArray(intsN(size)), L.MakeFromArray(intsN(size))
 			r := L.Concatenate(a, b)
-			before := fmt.Sprint(a.AsArray(), b.AsArray())
+			before := fmt.Sprint(showSeq(a), showSeq(b))
 			w := mutateIntColl(r, pos)
-			return before, fmt.Sprint(a.AsArray(), b.AsArray()), w
+			return before, fmt.Sprint(showSeq(a), showSeq(b)), w
 		}},
 	)
 	for _, op := range []string{"And", "Or", "Sans", "Xor"} {
@@ -365,32 +419,32 @@ func init() {
 				S := col.Set[int](n)
 				a, b := S.MakeFromArray(intsN(size)), S.MakeFromArray(intsN(size + 1)[1:])
 				r := apply(a, b)
-				before := fmt.Sprint(a.AsArray(), b.AsArray())
+				before := fmt.Sprint(showSeq(a), showSeq(b))
 				w := mutateIntColl(r, pos)
-				return before, fmt.Sprint(a.AsArray(), b.AsArray()), w
+				return before, fmt.Sprint(showSeq(a), showSeq(b)), w
 			}},
 			aliasEntry{"Set." + op + "(s, s)/mutate-result", func(size, pos int) (string, string, bool) {
 				a := col.Set[int](n).MakeFromArray(intsN(size))
 				r := apply(a, a)
-				before := fmt.Sprint(a.AsArray())
+				before := showSeq(a)
 				w := mutateIntColl(r, pos)
-				return before, fmt.Sprint(a.AsArray()), w
+				return before, showSeq(a), w
 			}},
 			aliasEntry{"Set." + op + "(s, s)/mutate-operand", func(size, pos int) (string, string, bool) {
 				a := col.Set[int](n).MakeFromArray(intsN(size))
 				r := apply(a, a)
-				before := fmt.Sprint(r.AsArray())
+				before := showSeq(r)
 				w := mutateIntColl(a, pos)
-				return before, fmt.Sprint(r.AsArray()), w
+				return before, showSeq(r), w
 			}},
 			aliasEntry{"Set." + op + "/mutate-operand", func(size, pos int) (string, string, bool) {
 				S := col.Set[int](n)
 				a, b := S.MakeFromArray(intsN(size)), S.MakeFromArray(intsN(size + 1)[1:])
 				r := apply(a, b)
-				before := fmt.Sprint(r.AsArray())
+				before := showSeq(r)
 				w := mutateIntColl(a, pos)
 				w = mutateIntColl(b, pos) || w
-				return before, fmt.Sprint(r.AsArray()), w
+				return before, showSeq(r), w
 			}},
 		)
 	}
@@ -442,17 +496,17 @@ func init() {
 				aliasEntry{"Set[float64]." + op + "(a, " + second + ")/add-equal-value-to-result", func(size, pos int) (string, string, bool) {
 					a, b := mk(size)
 					r := apply(a, b)
-					before := fmt.Sprint(a.AsArray(), b.AsArray())
+					before := fmt.Sprint(showSeq(a), showSeq(b))
 					addEqual(r)
-					return before, fmt.Sprint(a.AsArray(), b.AsArray()), size > 0
+					return before, fmt.Sprint(showSeq(a), showSeq(b)), size > 0
 				}},
 				aliasEntry{"Set[float64]." + op + "(a, " + second + ")/add-equal-value-to-operand", func(size, pos int) (string, string, bool) {
 					a, b := mk(size)
 					r := apply(a, b)
-					before := fmt.Sprint(r.AsArray())
+					before := showSeq(r)
 					addEqual(a)
 					addEqual(b)
-					return before, fmt.Sprint(r.AsArray()), size > 0
+					return before, showSeq(r), size > 0
 				}},
 			)
 		}
@@ -626,9 +680,9 @@ func init() {
 			L := col.List[int](n)
 			a := L.MakeFromArray(intsN(size))
 			r := L.Concatenate(a, a)
-			before := fmt.Sprint(a.AsArray())
+			before := showSeq(a)
 			w := mutateIntColl(r, pos)
-			return before, fmt.Sprint(a.AsArray()), w
+			return before, showSeq(a), w
 		}},
 		aliasEntry{"Catalog.Merge/mutate-result", func(size, pos int) (string, string, bool) {
 			C := col.Catalog[int, int](n)
